@@ -20,8 +20,8 @@ PROPS = {
         assumptions=["slices have cap == len (spare capacity not modelled)", "stride-0 inputs with zero-length leaf coordinates are only required not to panic"],
     ),
     "C02": dict(
-        modules=["GeomVerif.Properties.C02", "GeomVerif.Properties.C02Coll", "GeomVerif.Properties.C02MPoint"],
-        n_quick=4000, n_thorough=60000, thorough_seeds=4, min_theorems=6,
+        modules=["GeomVerif.Properties.C02", "GeomVerif.Properties.C02Coll", "GeomVerif.Properties.C02MPoint", "GeomVerif.Properties.C02MPoly"],
+        n_quick=4000, n_thorough=60000, thorough_seeds=4, min_theorems=7,
         rule="random operation histories (length 1..40, 2% up to 400) over {Push(part) 40%, of which 1/6 wrong layout; Reverse; "
              "Clone; Swap; Num; Coords; part accessor incl. out-of-range index} on Polygon, MultiLineString, MultiPoint, MultiPolygon; 1/5 of the histories on a "
              "GeometryCollection: variadic Push of 0..3 point/linestring members (1/5 with another layout), SetLayout (incl. NoLayout), Layout, NumGeoms, Geoms, Geom(i); "
@@ -30,7 +30,7 @@ PROPS = {
              "non-trivial = history text longer than 24 characters; distinct = distinct history hashes",
         trusted_base=TB_COMMON + ["modelled: Push/part accessors/Num/Reverse/Swap of polygon.go, multilinestring.go, multipoint.go, multipolygon.go; "
                                   "reverse1's in-place swap loop is summarised by its effect on whole coordinates (validated by the correspondence)",
-                                  "refinement theorem proved for Polygon/MultiLineString, MultiPoint and GeometryCollection; the MultiPolygon machine is checked against its spec by the correspondence run only"],
+                                  "refinement theorems proved for all five types (Polygon/MultiLineString, MultiPoint, MultiPolygon, GeometryCollection)"],
         assumptions=["Clone is the identity in the value model (storage separation is C16)", "pushed parts are valid geometries of their own layout"],
     ),
     "C05": dict(
